@@ -165,8 +165,14 @@ def rewrite(rng, root, kinds=None, p_site=0.5):
         if "blank" in kinds and rng.random() < p_site * 0.5:
             out.append(rng.choice(["", "   ", "\t", "\r", "\x0c", " \x0b"]))
         if "comment" in kinds and rng.random() < p_site * 0.5:
+            # a comment runs to the end of its line ("\n"); characters
+            # that other line splitters treat as line ends do not end it
             out.append(rng.choice(["# comment", "  #<x>", "#%define a b",
-                                   "\t# k v"]))
+                                   "\t# k v", "# old:\x0cnosuchkey on",
+                                   "#\x0b</nosuchtype>", "# a\u2028<b>",
+                                   "#\x85%define q r", "# x\ry z",
+                                   "#\x1c(", "# p\u2029%include nosuch",
+                                   "#\x1d\x1e</>", "#"]))
         if "trailing" in kinds and rng.random() < p_site:
             # "\r" makes the line end CRLF; the others are whitespace too
             body += rng.choice([" ", "\t", "  \t ", "\r", " \r", "\x0c",
